@@ -132,6 +132,11 @@ def recipes(ctx):
     out.append(('qed', {}))
     for k in ('vhd', 'vdi', 'vhdx', 'iso', 'raw', 'qcow2v2', 'udf'):
         out.append((k, {}))
+    # ---- truncations of clean images: never 'captured completely' -> never accepted ----
+    for k in ('qcow2', 'qcow2v2', 'vhd', 'vdi', 'luks1', 'mbr-gpt', 'iso', 'udf', 'vhdx',
+              'vmdk-plain', 'vmdk-footer'):
+        for t in range(40):
+            out.append(('trunc', dict(base=k, cut=t)))
     # F1 witness: text descriptor whose unsafe extent lies beyond the first reads
     out.append(('vmdk_text', dict(late=True)))
     out.append(('vmdk_text', dict(late=False)))
@@ -225,6 +230,48 @@ def build(kind, kw, seed):
         return B.iso(ident=b'NSR03'), 'iso', [32768, 34816]
     if kind == 'raw':
         return B.raw('random', 5000, seed), 'raw', [512, 4096]
+    if kind == 'trunc':
+        base = kw['base']
+        if base == 'qcow2':
+            im, fmt, need = B.qcow2(length=1024), 'qcow2', 512
+        elif base == 'qcow2v2':
+            im, fmt, need = B.qcow2(version=2, length=600), 'qcow2', 512
+        elif base == 'vhd':
+            im, fmt, need = B.vhd(), 'vhd', 512
+        elif base == 'vdi':
+            im, fmt, need = B.vdi(), 'vdi', 512
+        elif base == 'luks1':
+            im, fmt, need = B.luks(version=1, payload_sectors=1, length=2048), 'luks', 592
+        elif base == 'mbr-gpt':
+            im, fmt, need = B.mbr([B.PTE_GPT]), 'gpt', 512
+        elif base == 'iso':
+            im, fmt, need = B.iso(), 'iso', B.ISO_END
+        elif base == 'udf':
+            im, fmt, need = B.iso(ident=b'NSR02'), 'iso', B.ISO_END
+        elif base == 'vhdx':
+            im = B.vhdx(size=1 << 30)
+            fmt, need = 'vhdx', im.size_end
+        elif base == 'vmdk-plain':
+            im = B.vmdk(desc_num=2, grain_fill=300)
+            fmt, need = 'vmdk', im.size_end
+        else:
+            im = B.vmdk(desc_num=2, grain_fill=300, footer='good', ctype='streamOptimized')
+            fmt, need = 'vmdk', len(im.data)
+        pts = sorted({x for b in list(im.bounds) + [need, len(im.data)] for x in (b - 1, b, b + 1)
+                      if 0 <= x <= len(im.data)})
+        if kw['cut'] >= len(pts):
+            return None, fmt, []
+        t = pts[kw['cut']]
+        d = im.data[:t]
+        tim = B.Image(fmt, d, name='%s|%d' % (base, t), bounds=im.bounds)
+        if t < need:
+            tim.unsafe = {'truncated'}
+            tim.clean = False
+        else:
+            tim.clean = True
+        tim.facts['truncated'] = True
+        cuts = [c for c in (4, 64, 511, 512, 592, need - 1, need, t - 1) if 0 < c < t]
+        return tim, fmt, sorted(set(cuts))
     if kind == 'vmdk_text':
         head = b'# Disk DescriptorFile\nversion=1\ncreateType="monolithicSparse"\nRW 16 SPARSE "a.vmdk"\n'
         pad = b'# padding comment line ..............................\n' * (90 if kw['late'] else 1)
@@ -277,8 +324,11 @@ def _batch(job):
     for n in range(lo, hi):
         kind, kw = _JOBS[n]
         im, fmt, cuts = build(kind, kw, seed)
+        if im is None:
+            continue
         data = im.data
         out['images'] += 1
+        truncated = bool(im.facts.get('truncated'))
         cls = 'unsafe' if im.unsafe else 'clean' if im.clean else 'neither'
         out[cls] += 1
         sigs = ['F1-vmdk-text-descriptor'] if (fmt == 'vmdk' and findings.f1_vmdk_text(data)) else []
@@ -315,6 +365,13 @@ def _batch(job):
         code, exc = cli_exit(path)
         out['cli_runs'] += 1
         out['comparisons'] += 2
+        if truncated:
+            # a truncated stream may legitimately be detected as something else
+            # (raw); only the CLI/library agreement is demanded on the file path
+            if (code == 0) != (lib == 'ok'):
+                problem('cli-disagrees-with-library', {'lib': lib, 'cli_exit': code, 'exc': exc,
+                                                       'detected': name}, {'via': 'file'})
+            continue
         if im.unsafe and (lib == 'ok' or code == 0):
             problem('unsafe-accepted', {'via': 'file/cli', 'lib': lib, 'cli_exit': code,
                                         'detected': name}, {'via': 'file'})
@@ -394,6 +451,8 @@ def check_subprocess(rep, ctx, tmpdir):
     for n in picks:
         kind, kw = _JOBS[n]
         im, fmt, cuts = build(kind, kw, ctx.seed)
+        if im is None or im.facts.get('truncated'):
+            continue
         path = os.path.join(tmpdir, 'sub-%d' % n)
         with open(path, 'wb') as f:
             f.write(im.data)
